@@ -664,6 +664,23 @@ class Evaluator:
         return DictVal(items)
 
     def e_DictComp(self, node, st, ctx):
+        # {k: f(k, v) for k, v in d.items()} over a dict whose keys are known
+        if len(node.generators) == 1 and not node.generators[0].ifs and not node.generators[0].is_async:
+            g = node.generators[0]
+            try:
+                src = self.eval(g.iter, st, ctx)
+            except Undecided:
+                src = None
+            if isinstance(src, Tup) and all(isinstance(x, Tup) for x in src.items):
+                out: Dict[Any, AV] = {}
+                for it in src.items:
+                    sub = State(dict(st.env), st.heap, list(st.facts))
+                    self.assign(g.target, it, sub, ctx)
+                    k = self.dict_key(self.eval(node.key, sub, ctx))
+                    if k is None:
+                        return SymObj(f'<dict comprehension at line {node.lineno}>')
+                    out[k] = self.eval(node.value, sub, ctx)
+                return DictVal(out)
         return SymObj(f'<dict comprehension at line {node.lineno}>')
 
     def e_Set(self, node, st, ctx):
@@ -1106,8 +1123,9 @@ class Evaluator:
         for k in node.keywords:
             if k.arg is None:
                 dv = self.eval(k.value, st, ctx)
-                if isinstance(dv, DictVal) and all(isinstance(x, str) for x in dv.items):
-                    kwargs.update(dv.items)
+                if isinstance(dv, DictVal) and all(isinstance(x, tuple) and x[0] == 'c' and isinstance(x[1], str)
+                                                   for x in dv.items):
+                    kwargs.update({x[1]: v_ for x, v_ in dv.items.items()})
                     continue
                 raise Undecided('**kwargs')
             kwargs[k.arg] = self.eval(k.value, st, ctx)
@@ -1180,6 +1198,23 @@ class Evaluator:
                 return Tup(list(base.items.values()))
             if name == 'keys' and not args:
                 return Tup([Const(k[1]) if k[0] == 'c' else Const(str(k)) for k in base.items])
+            if name == 'items' and not args:
+                return Tup([Tup([Const(k[1]) if k[0] == 'c' else Const(str(k)), v]) for k, v in base.items.items()])
+            if name == 'copy' and not args:
+                return DictVal(dict(base.items))
+            if name == 'update' and len(args) <= 1:
+                # in-place: the value object is shared by every alias of the dict (straight-line use only)
+                if args:
+                    if not isinstance(args[0], DictVal):
+                        raise Undecided('dict.update with an unknown mapping')
+                    base.items.update(args[0].items)
+                base.items.update({('c', k): v for k, v in kwargs.items()})
+                return NONE
+            if name == 'setdefault' and len(args) == 2:
+                k = self.dict_key(args[0])
+                if k is None:
+                    raise Undecided('dict.setdefault with a symbolic key')
+                return base.items.setdefault(k, args[1])
             if name == 'get' and args:
                 k = self.dict_key(args[0])
                 if k is None:
@@ -1363,7 +1398,7 @@ class Evaluator:
             # a TypedDict class called with keywords builds a plain dict
             if args:
                 raise Undecided(f'TypedDict {ci.name} called with positional arguments')
-            return DictVal({k: v for k, v in kwargs.items()})
+            return DictVal({('c', k): v for k, v in kwargs.items()})
         if args or kwargs:
             raise Undecided(f'constructor of {ci.name} with arguments but no __init__')
         return obj
@@ -1488,6 +1523,8 @@ class Evaluator:
                         s.attr, type(None)) is type(x.value) if x.value is not None else False)
                 elif isinstance(x, (Inst,)):
                     verdicts.append(False)
+                elif isinstance(x, DictVal):
+                    verdicts.append(s.attr == 'dict')
                 elif isinstance(x, Tup):
                     verdicts.append(s.attr == 'tuple')
                 elif isinstance(x, Lst):
@@ -1629,6 +1666,12 @@ class Evaluator:
                 return self.branch(tv, s.body, s.orelse, rest, st, ctx)
             if isinstance(s, (ast.While, ast.For)):
                 self.havoc_loop(s, st, ctx)
+                early = self.loop_early_exits(s, st, ctx)
+                if early is not None:
+                    # the body can return / raise: either it does in some iteration, or the loop is left normally
+                    tst = Test('opaque', key=f'loop at line {s.lineno} returns or raises from its body')
+                    s2 = st.copy()
+                    return Branch(tst, early, self.exec_block(rest, s2, ctx))
                 if isinstance(s, ast.While) and not s.orelse and not any(
                         isinstance(b, (ast.Break, ast.Return)) for b in ast.walk(s)):
                     # a while loop without break/return is left exactly when its condition is false
@@ -1760,6 +1803,48 @@ class Evaluator:
             self.assign(s.target, v, st, ctx)
             return v
         return None
+
+    def loop_early_exits(self, loop, st: State, ctx: Ctx):
+        """Outcome tree of the ways the loop body leaves the function (return / raise), evaluated once on the havocked
+        state with the loop variables as unknowns; None when the body has no such statement."""
+        def own(n):
+            # statements of this loop, not of functions / lambdas defined inside it
+            todo = list(ast.iter_child_nodes(n))
+            while todo:
+                x = todo.pop()
+                if isinstance(x, (ast.FunctionDef, ast.AsyncFunctionDef, ast.Lambda, ast.ClassDef)):
+                    continue
+                yield x
+                todo.extend(ast.iter_child_nodes(x))
+        if not any(isinstance(x, (ast.Return, ast.Raise)) for x in own(loop)):
+            return None
+        sub = st.copy()
+        if isinstance(loop, ast.For):
+            try:
+                it = self.eval(loop.iter, sub, ctx)
+            except Undecided:
+                it = SymObj(f'<iterable at line {loop.lineno}>')
+            elem = SymObj(f'{it.path}[*]') if isinstance(it, SymObj) else SymObj(f'<element at line {loop.lineno}>')
+            try:
+                self.assign(loop.target, elem, sub, ctx)
+            except Undecided:
+                pass
+        unknown = Leaf('return', SymObj(f'<value returned from the loop at line {loop.lineno}>'), sub, loop)
+        try:
+            tree = self.exec_block(list(loop.body), sub, ctx)
+        except Undecided:
+            return unknown
+
+        def prune(t):
+            if isinstance(t, Leaf):
+                return t if t.kind in ('return', 'raise') else None
+            a, b = prune(t.then), prune(t.orelse)
+            if a is None:
+                return b
+            if b is None:
+                return a
+            return Branch(t.test, a, b)
+        return prune(tree) or unknown
 
     def havoc_loop(self, loop, st: State, ctx: Ctx) -> None:
         n = next(self.loop_counter)
